@@ -1,4 +1,5 @@
 import MM.Props.C08
+import MM.Props.MemoTie
 
 #print axioms MM.DiagCache.C08_obligation_clears
 #print axioms MM.DiagCache.C08_obligation_y
@@ -17,3 +18,4 @@ import MM.Props.C08
 #print axioms MM.DiagCache.C08_clearX_xv
 #print axioms MM.DiagCache.runWith_gen
 #print axioms MM.DiagCache.runWith_spec
+#print axioms MM.Memo.tie_memoised
